@@ -17,11 +17,13 @@ CLAIMED = {
          "Coq proof (rank/Pascal induction, counting) + model-vs-code correspondence by vm_compute", "DESIGN.md section 6 C20"),
  "C07": ("Theorem C07: for EVERY weight matrix and masks that admit a perfect allowed matching, the Gallina transcription of "
          "hungarian_algorithm is never stuck and returns a perfect allowed matching of maximal weight whose weight is the returned score "
-         "(or the explicit range-checked i32 Overflow outcome); C07_partial: whenever it answers, the answer is optimal. Proved by the "
-         "classical invariants (dual feasibility, tight matched edges, alternating tree, Hall-type progress) with no size bound. Tied to "
+         "(or the explicit range-checked i32 Overflow outcome); C07_total: with weights in [0, Wmax] and (N + 2) * Wmax <= i32::MAX the Overflow "
+         "outcome is impossible (dual-objective potential: every label stays within [-N*Wmax, (N+1)*Wmax]), so the optimal matching is always "
+         "returned; C07_partial: whenever it answers, the answer is optimal. Proved by the "
+         "classical invariants (dual feasibility, tight matched edges, alternating tree, Hall-type progress). Tied to "
          "hungarian.rs by exact comparison of matching, score and final dual labels on generated inputs inside Coq.",
-         "Trusted: Coq kernel + vm_compute; model HP1.v is a hand transcription (faithfulness = correspondence run); the bound that keeps "
-         "labels inside i32 is not formalised (model has an Overflow outcome instead); no axioms.",
+         "Trusted: Coq kernel + vm_compute; model HP1.v is a hand transcription (faithfulness = correspondence run); the i32 range "
+         "checks of the code are part of the model (explicit Overflow outcome) and proved unreachable under the size bound; no axioms.",
          "Coq proof (primal-dual invariants) + model-vs-code correspondence by vm_compute", "DESIGN.md section 6 C07, Appendix B.1"),
 }
 EXTRA = os.path.join(VERIF, "bin", "manifest_extra.json")
